@@ -113,12 +113,14 @@ class Gen:
         if T == "int":
             opts += ["const"]
             if d > 0:
-                opts += ["add", "ifexp", "tupidx", "dictattr", "count", "first", "called"]
+                opts += ["add", "ifexp", "tupidx", "dictattr", "count", "first", "called", "helper"]
         elif T == "bool":
             opts += ["cmp", "cmp", "and"] if d > 0 else ["cmp0"]
         elif T[0] == "seq":
             if d > 0:
                 opts += ["select", "where", "selectmany"]
+                if T[1] == "int":
+                    opts += ["helper"]
         elif T[0] in ("tup", "dict"):
             opts += ["build"]
         elif T[0] == "rec":
@@ -207,7 +209,7 @@ class Gen:
             # or a later one of the run) with another argument - what an inlined Python helper
             # function looks like inside a query
             key = json.dumps(T)
-            known = [h for h in self.helpers if h[0] == key]
+            known = [h for h in self.helpers if h[0] == "1:" + key]
             if known and r.random() < 0.5:
                 _, aT, l = r.choice(known)
                 a = E(aT)
@@ -222,8 +224,37 @@ class Gen:
                 return None
             used = set(re.findall(r"[A-Za-z_][A-Za-z_0-9]*", l))
             if not (used & (set(env) - {"ds"})) and "Select" in l:
-                self.helpers.append((key, aT, l))
+                self.helpers.append(("1:" + key, aT, l))
             return f"{l}({a})"
+        if o == "helper":
+            # a two-parameter helper (what an inlined Python helper function looks like): it
+            # fuses stages internally and mentions its scalar parameter inside a stage lambda;
+            # the same helper text is called again elsewhere with other arguments
+            key = json.dumps(T)
+            known = [h for h in self.helpers if h[0] == key]
+            if known and r.random() < 0.6:
+                text = r.choice(known)[1]
+                self.helper_reuses += 1
+            else:
+                js, c, a_, b_ = self.fresh(), self.fresh(), self.fresh(), self.fresh()
+                if len({js, c, a_, b_}) < 4:
+                    return None
+                if T == "int":
+                    body = r.choice([
+                        f"Count(Where(Select({js}, lambda {a_}: {a_}.pt), lambda {b_}: {b_} > {c}))",
+                        f"Count(Select(Where({js}, lambda {a_}: {a_}.pt > {c}), lambda {b_}: {b_}.eta)) + {c}",
+                    ])
+                else:
+                    body = r.choice([
+                        f"Select(Select({js}, lambda {a_}: {a_}.pt), lambda {b_}: {b_} * {c})",
+                        f"Where(Select({js}, lambda {a_}: {a_}.eta + {c}), lambda {b_}: {b_} > 0)",
+                        f"Select(Select({js}, lambda {a_}: ({a_}.pt, {c})), lambda {b_}: {b_}[0] + {b_}[1])",
+                        f"SelectMany(Select({js}, lambda {a_}: ({a_}, {c})), lambda {b_}: Select({js}, lambda {a_}: {a_}.pt + {b_}[1]))",
+                    ])
+                text = f"(lambda {js}, {c}: {body})"
+                self.helpers.append((key, text))
+            aj, ac = E(("seq", ("rec", "jet"))), E("int")
+            return None if None in (aj, ac) else f"{text}({aj}, {ac})"
         if o == "build":
             if T[0] == "tup":
                 es = [E(t) for t in T[1]]
